@@ -60,6 +60,7 @@ def textStepOK (cu : Culture) (used : Nat) (f : Follow) : Step → Bool
   | .dayText count => dayNamesOK cu count && (dayDanger cu count).all f.notCharCI
   | .amPm count => amPmOK cu count && (amPmDanger cu count).all f.notCharCI
   | .era => eraOK cu && (eraDanger cu).all f.notCharCI
+  | .eraC cal => eraCOK cu cal && (eraCDanger cu cal).all f.notCharCI
   | .calendar => true
   | _ => false
 
